@@ -80,6 +80,10 @@ func (m *merkleBlock) traverseAndBuild(height, pos uint32) {
 type blockFilterer struct {
 	filter         *Filter
 	matchedIndices map[int]bool
+
+	// checkedAt holds, for every transaction checked so far, the filter's
+	// update count right after that check.
+	checkedAt map[int]uint64
 }
 
 type txWithIndex struct {
@@ -91,7 +95,17 @@ type txWithIndex struct {
 // inputs to double check transactions that are in the block but were already processed.
 // This is necessary if the block is not sorted in topological order.
 func (bf *blockFilterer) checkFilterTx(tx *bchutil.Tx, txIndex int, inputs map[chainhash.Hash][]*txWithIndex) {
-	if bf.filter.MatchTxAndUpdate(tx) {
+	// A transaction that was last checked against the filter as it is now
+	// needs no second look: the answer and the update would be the same, and
+	// its dependants were walked then.  Looking anyway, for every path that
+	// leads here, made the scan exponential in the depth of the spend graph
+	// (a block of two dozen chained transactions took minutes).
+	if at, ok := bf.checkedAt[txIndex]; ok && at == bf.filter.updateCount() {
+		return
+	}
+	matched := bf.filter.MatchTxAndUpdate(tx)
+	bf.checkedAt[txIndex] = bf.filter.updateCount()
+	if matched {
 		bf.matchedIndices[txIndex] = true
 		if dependentTxs, ok := inputs[tx.MsgTx().TxHash()]; ok {
 			for _, dependentTx := range dependentTxs {
@@ -104,7 +118,7 @@ func (bf *blockFilterer) checkFilterTx(tx *bchutil.Tx, txIndex int, inputs map[c
 // GetMatchedIndices returns the index of the transactions that match the filter.
 // This works even with CTOR ordering.
 func GetMatchedIndices(block *bchutil.Block, filter *Filter) map[int]bool {
-	bf := blockFilterer{matchedIndices: make(map[int]bool), filter: filter}
+	bf := blockFilterer{matchedIndices: make(map[int]bool), checkedAt: make(map[int]uint64), filter: filter}
 	inputs := make(map[chainhash.Hash][]*txWithIndex)
 	for txIndex, tx := range block.Transactions() {
 		for _, in := range tx.MsgTx().TxIn {
